@@ -22,12 +22,12 @@ EnfC08 == {"C08"}
 EnfC10 == {"C10"}
 EnfC11 == {"C11"}
 EnfC12 == {"C12"}
-EnfC16 == {"C01", "C02", "C16"}   \* cache transparency: same functions AND same canonical diagrams
+EnfC16 == {"C16"}   \* cache transparency: the twin builder with a tiny lossy cache returns the same diagrams
 EnfAll == {"C01", "C02", "C05", "C07", "C08", "C10", "C11", "C12", "C16"}
 
 Producers == {"var", "newvar", "neg", "and", "or", "xor", "iff", "ite", "cond", "condm", "exists",
               "compose", "andl", "orl", "cnf", "cnfa", "expr", "plan", "smooth"}
-Queries == {"eq", "recheck", "eval", "count", "wmc", "uwmc"}
+Queries == {"eq", "recheck", "eval", "count", "wmc", "uwmc", "semhash", "mmap", "meu", "bb"}
 
 Init ==
   /\ l = 2
